@@ -4,6 +4,11 @@
 package afpacket
 
 import (
+	"io"
+	"sync"
+	"syscall"
+	"time"
+
 	"github.com/google/gopacket"
 	afp "github.com/google/gopacket/afpacket"
 	"github.com/google/gopacket/layers"
@@ -12,16 +17,25 @@ import (
 	"golang.org/x/net/bpf"
 )
 
+// pollTimeout bounds the time a read waits for a packet,
+// so that Close never waits longer than that for a read in progress
+const pollTimeout = 100 * time.Millisecond
+
 type Source struct {
 	handle   *afp.TPacket
 	linkType layers.LinkType
+	// mu keeps Close from unmapping the ring buffer of the handle
+	// while a read or write is in progress
+	mu     sync.RWMutex
+	closed bool
 }
 
 // Assert that AfPacketSource conforms to the packet.ReadWriter interface
 var _ packet.ReadWriter = (*Source)(nil)
 
 func NewPacketSource(iface string, vpnMode bool) (*Source, error) {
-	handle, err := afp.NewTPacket(afp.SocketRaw, afp.OptInterface(iface))
+	handle, err := afp.NewTPacket(afp.SocketRaw, afp.OptInterface(iface),
+		afp.OptPollTimeout(pollTimeout))
 	if err != nil {
 		return nil, err
 	}
@@ -29,7 +43,7 @@ func NewPacketSource(iface string, vpnMode bool) (*Source, error) {
 	if vpnMode {
 		linkType = layers.LinkTypeIPv4
 	}
-	return &Source{handle, linkType}, nil
+	return &Source{handle: handle, linkType: linkType}, nil
 }
 
 // maxPacketLength is the maximum size of packets to capture in bytes.
@@ -54,14 +68,34 @@ func (s *Source) SetBPFFilter(bpfFilter string, maxPacketLength int) error {
 }
 
 func (s *Source) Close() {
-	s.handle.Close()
+	s.mu.Lock()
+	defer s.mu.Unlock()
+	if !s.closed {
+		s.closed = true
+		s.handle.Close()
+	}
 }
 
 func (s *Source) ReadPacketData() ([]byte, *gopacket.CaptureInfo, error) {
-	data, ci, err := s.handle.ZeroCopyReadPacketData()
+	s.mu.RLock()
+	defer s.mu.RUnlock()
+	if s.closed {
+		return nil, nil, io.EOF
+	}
+	// the packet is copied out of the ring buffer, Close unmaps it
+	data, ci, err := s.handle.ReadPacketData()
+	if err == afp.ErrTimeout {
+		// no packet within the poll timeout, the caller retries
+		err = syscall.EAGAIN
+	}
 	return data, &ci, err
 }
 
 func (s *Source) WritePacketData(pkt []byte) error {
+	s.mu.RLock()
+	defer s.mu.RUnlock()
+	if s.closed {
+		return io.ErrClosedPipe
+	}
 	return s.handle.WritePacketData(pkt)
 }
